@@ -1,4 +1,5 @@
 """C08 — difference is set difference (DESIGN §5 C08)."""
+from .. import invariant
 from .. import intervals
 from ..interp import Adt, Cell, Inconclusive, Interp, Policy, Ptr
 from .common import interval_table, set_table
@@ -6,6 +7,7 @@ from .common import interval_table, set_table
 
 def check(ctx, rep):
     prog = ctx.prog()
+    invariant.check_invariant(ctx, rep, prog)
     env = intervals.Env(prog)
     t_flip(rep, prog, env)
     interval_table(ctx, rep, prog, "difference", "T-DIF", 1004,
